@@ -930,6 +930,28 @@ def kind_known(f: Fn, call: ast.Call, recv: str, kind: str) -> bool:
         for rhs in assigned_from(f, recv) if recv.isidentifier() else []:
             if isinstance(rhs, ast.Call) and call_name(rhs) == 'Node' and rhs.args and known_instance(gs, norm(rhs.args[0]), {cls[k]}):
                 return True
+        # every definition of the receiver that reaches the call is Node(<a node built as K>) or Node(x) bound where
+        # isinstance(x, K) was known, and the local is not a Node that something else could have rewrapped in between
+        if recv.isidentifier():
+            ds = reaching_defs(f, call, recv)
+            def wraps_kind(d):
+                v = d.value if isinstance(d, (ast.Assign, ast.AnnAssign)) else None
+                if not (isinstance(d, ast.Assign) and len(d.targets) == 1 and isinstance(d.targets[0], ast.Name)):
+                    return False
+                if not (isinstance(v, ast.Call) and call_name(v) == 'Node' and len(v.args) == 1 and not v.keywords):
+                    return False
+                a0 = v.args[0]
+                if isinstance(a0, ast.Call) and norm(a0.func) in ('yaml.%s' % cls[k], cls[k]):
+                    return True
+                return known_instance(f.guards(d), norm(a0), {cls[k]})
+            if ds and all(wraps_kind(d) for d in ds):
+                # between definition and call nothing turns the wrapper into something else: Node has no method that makes a
+                # mapping a non-mapping except set_value (scalar) - not called on it
+                if not any(isinstance(c, ast.Call) and isinstance(c.func, ast.Attribute) and c.func.attr == 'set_value'
+                           and norm(c.func.value) == recv for c in f.walk()) \
+                        and not any(isinstance(n, ast.Attribute) and isinstance(n.ctx, ast.Store) and n.attr == 'yaml_node'
+                                    and norm(n.value) == recv for n in f.walk()):
+                    return True
         # `if not recv.is_kind(): return` earlier on every path
         pos = S.branch_nodes(f, lambda a, k=k: S.atom_is(a, '%s.is_%s()' % (recv, k), True))
         if k == 'mapping':
